@@ -44,16 +44,30 @@ impl World {
         ensures final(self).ents() == old(self).ents(), final(self).same_storages(old(self)),
     { unimplemented!() }
 
-    // ASSUMED CONTRACT of WorldExt::delete_components (src/world/world_ext.rs:416-420): its body walks
-    // shred's MetaTable<dyn AnyStorage> (trait objects; outside both verifiers) and calls AnyStorage::drop
-    // on every listed storage; AnyStorage::drop for MaskedStorage<T> is verified in unit `storage`.
+    // The MetaTable<dyn AnyStorage> as an indexed list: ASSUMED (shred) — `MetaTable::iter_mut(world)` yields every registered
+    // storage exactly once; the loop `for storage in self.fetch_mut::<MetaTable<dyn AnyStorage>>().iter_mut(self) { storage.drop(X); }`
+    // is normalised (N10) to `for k__ in 0..self.listed_len() { self.listed_drop(k__, X); }` over this list.
+    pub uninterp spec fn listed_seq(&self) -> Seq<StorageId>;
     #[verifier::external_body]
-    pub fn delete_components(&mut self, delete: &[Entity])
+    pub broadcast proof fn axiom_listed_seq(&self)
         ensures
-            final(self).ents() == old(self).ents(),
+            forall|s: StorageId| #![trigger self.listed(s)] self.listed(s) <==> self.listed_seq().contains(s),
+            forall|a: int, b: int| 0 <= a < b < (#[trigger] self.listed_seq()).len() ==> self.listed_seq()[a] != self.listed_seq()[b],
+    {}
+    #[verifier::external_body]
+    pub fn listed_len(&self) -> (r: usize)
+        ensures r == self.listed_seq().len(),
+    { unimplemented!() }
+    // dynamic dispatch of AnyStorage::drop on the k-th listed storage = MaskedStorage<T>::drop(entities) for its T, which is verified
+    // in unit `storage` (`MaskedStorage::any_drop`: removes exactly the given indices, keeps the rest)
+    #[verifier::external_body]
+    pub fn listed_drop(&mut self, k: usize, entities: &[Entity])
+        requires k < old(self).listed_seq().len(),
+        ensures
+            final(self).ents() == old(self).ents(), final(self).listed_seq() == old(self).listed_seq(),
             forall|s: StorageId| #![trigger final(self).smask(s)] #![trigger final(self).listed(s)] #![trigger final(self).has_storage(s)]
                 final(self).has_storage(s) == old(self).has_storage(s) && final(self).listed(s) == old(self).listed(s)
-                && final(self).smask(s) == (if old(self).listed(s) { old(self).smask(s) - ids(delete@).to_set() } else { old(self).smask(s) }),
+                && final(self).smask(s) == (if s == old(self).listed_seq()[k as int] { old(self).smask(s) - ids(entities@).to_set() } else { old(self).smask(s) }),
     { unimplemented!() }
 }
 
